@@ -197,7 +197,22 @@ class AgentWorld(World):
         px.roots['agent'] = self.in_proc(px, make_agent)
         self.contact_paths = []
         listening = False
+        self.raw = {}
         for (i, kind) in enumerate(self.params['contacts']):
+            if kind == 'raw':
+                # a connection to X's listener with no TCPCL entity behind it: the harness writes its octets
+                if not listening:
+                    res = self.bus_call(px, AGENT_PATH, 'listen', X_ADDR, 4556, iface=AGENT_IFACE)
+                    if res[0] != 'ok':
+                        raise HarnessError('Agent.listen failed: %r' % (res,))
+                    listening = True
+                conn = vnet.StreamConn('c%d' % i, addr0=('10.0.%d.9' % (i + 1), 43000 + i), addr1=(X_ADDR, 4556))
+                conn.sent_log = []
+                self.net.listeners[(X_ADDR, 4556)]._accept_q.append(conn)
+                self.contact_paths.append(None)
+                self.conns.append(conn)
+                self.raw[i] = conn
+                continue
             pname = 'P%d' % i
             pp = self.add_proc(pname)
             pcfg = nsp.config.Config(tls_enable=False, node_id='dtn://p%d/' % i, segment_size_mru=self.params['seg_mru'],
@@ -246,7 +261,16 @@ class AgentWorld(World):
 
     # ---- driving
     def proc_names(self):
-        return ['X'] + ['P%d' % i for i in range(len(self.params['contacts']))]
+        return ['X'] + ['P%d' % i for (i, k) in enumerate(self.params['contacts']) if k != 'raw']
+
+    def raw_write(self, i, data, eof=False):
+        '''Octets (and possibly the end of the stream) from the entity-less connection i arrive at X.'''
+        conn = self.raw[i]
+        if not conn.closed[1]:
+            conn.buf[1] += bytes(data)
+        if eof:
+            conn.closed[0] = True
+            conn.shut_wr[0] = True
 
     def step(self, name):
         '''One ready callback of the named process; False if none is ready.'''
